@@ -255,6 +255,8 @@ type plan struct {
 	faults  map[int]string     // index -> action kind
 	from    map[string]int     // "blackhole_req"/"blackhole_resp" -> starting index (applies to every later counted request)
 	hooks   map[int]func()     // run before delivering request index i
+	cmdHooks map[string]map[int]func() // C06: run before delivering the n-th counted request of a command type (e.g. "Commit")
+	cmdCount map[string]int
 	after   map[int]func()     // run after request index i was delivered (and answered by the store), before its answer is seen or dropped
 	filter  func(req *tikvrpc.Request) bool
 	active  atomic.Bool        // counting enabled
@@ -304,6 +306,16 @@ func (g *gate) decide(req *tikvrpc.Request) (string, int, func()) {
 	defer p.mu.Unlock()
 	i := p.counted
 	p.counted++
+	var cmdHook func()
+	if p.cmdHooks != nil {
+		cmd := req.Type.String()
+		if p.cmdCount == nil {
+			p.cmdCount = map[string]int{}
+		}
+		n := p.cmdCount[cmd]
+		p.cmdCount[cmd] = n + 1
+		cmdHook = p.cmdHooks[cmd][n]
+	}
 	act := "deliver"
 	if a, ok := p.faults[i]; ok {
 		act = a
@@ -314,6 +326,11 @@ func (g *gate) decide(req *tikvrpc.Request) (string, int, func()) {
 		if s, ok := p.from["blackhole_resp"]; ok && i >= s {
 			act = "dropresp"
 		}
+	}
+	if h := p.hooks[i]; h != nil && cmdHook != nil {
+		return act, i, func() { h(); cmdHook() }
+	} else if cmdHook != nil {
+		return act, i, cmdHook
 	}
 	return act, i, p.hooks[i]
 }
